@@ -184,6 +184,9 @@ def elementary_checks(verdict, spec, nss, tier, seed):
                 try:
                     T = AffineTransform(xp=xp, dtype=dt)
                     X = xp.asarray(data)
+                    if trial % 2 == 1:
+                        # the same object is fitted twice (as the samplers do at every mutation step)
+                        T.fit(xp.asarray((data * 0.01 + 3.0).astype(fdt)))
                     fy = T.fit(X)
                     y, j = T.forward(X)
                     xb, jb = T.inverse(y)
@@ -256,6 +259,9 @@ def structure_checks(verdict, spec, nss, tier, seed):
                                                bounded_to_unbounded=c["b2u"], bounded_transform=c["btrans"],
                                                affine_transform=c["affine"], xp=xp, dtype=dt)
                     X = xp.asarray(data)
+                    if ci % 2 == 1:
+                        # refit: first on other data, then on the data used below
+                        T.fit(xp.asarray((data * 0.25 + (data.mean(0) * 0.75)).astype(fdt)))
                     fy = T.fit(xp.asarray(data.copy()))
                     y, j = T.forward(xp.asarray(data.copy()))
                     xb, jb = T.inverse(y)
